@@ -13,8 +13,9 @@ from .state import Registry
 from .engine import Exec
 from .values import OutsideSubset, AT_AXIOMS
 
-QUICK_TIMEOUT_MS = 10000
-THOROUGH_TIMEOUT_MS = 30000
+QUICK_TIMEOUT_MS = 20000
+THOROUGH_TIMEOUT_MS = 60000
+RETRY_FACTOR = 3          # undecided queries are re-run alone (few workers) with a longer budget before a verdict is given
 
 
 def _solve(job):
@@ -145,8 +146,22 @@ def verify_modules(modnames, tier='quick', prop=None, only=None):
     results = {}
     covers = []
     if jobs or cover_jobs:
-        with multiprocessing.get_context('fork').Pool(min(16, len(jobs) + len(cover_jobs))) as pool:
-            for r in pool.imap_unordered(_solve, jobs + cover_jobs, chunksize=1):
+        all_jobs = jobs + cover_jobs
+        first = []
+        with multiprocessing.get_context('fork').Pool(min(10, len(all_jobs))) as pool:
+            for r in pool.imap_unordered(_solve, all_jobs, chunksize=1):
+                first.append(r)
+        retry = [(n, i, smt, t * RETRY_FACTOR, c) for (n, i, smt, t, c) in jobs
+                 if any(r['name'] == n and r['idx'] == i and r['status'] == 'unknown' for r in first)]
+        if retry:
+            keep = [r for r in first if not any(r['name'] == j[0] and r['idx'] == j[1] for j in retry)]
+            with multiprocessing.get_context('fork').Pool(min(4, len(retry))) as pool:
+                second = pool.map(_solve, retry, chunksize=1)
+            for r in second:
+                r['solver_output'] = 'after retry with %d ms: %s' % (retry[0][3], r['solver_output'])
+            first = keep + second
+        if True:
+            for r in first:
                 if '::cover[' in r['name']:
                     # a cover asks for satisfiability: `unsat` means the contract's precondition excludes every input (vacuous proof)
                     covers.append(dict(name=r['name'], status={'sat': 'satisfiable', 'unsat': 'VACUOUS'}.get(r['status'], 'not refuted (solver: unknown)')))
@@ -166,7 +181,8 @@ def verify_modules(modnames, tier='quick', prop=None, only=None):
                 st, model = 'sat', r['model']
             elif r['status'] != 'unsat' and st != 'sat':
                 st, so = 'unknown', r['solver_output']
-        meta.update(status=st, model=model, solver_output=so, backend='+'.join(sorted(backends)), time_s=t)
+        meta.update(status=st, model=model, solver_output=so, backend='+'.join(sorted(backends)), time_s=t,
+                    per_query=sorted((r['idx'], r['status'], round(r['time_s'], 2)) for r in rs))
         obligations.append(meta)
     return dict(obligations=obligations, functions=functions, errors=errors, outside_subset=outside, assumptions=assumptions,
                 covers=sorted(covers, key=lambda c: c['name']))
